@@ -101,6 +101,20 @@ def stepWith (oracle : Case → Summary → Bool) (d : DSt) (fields : List Strin
     match parseSummary impl with
     | some i => (d, ⟨showSummary m, agrees d.client m i, oracle c m, oracle c i, "-"⟩)
     | none => (d, ⟨showSummary m, false, oracle c m, false, "-"⟩)
+  | ["resume"] =>
+    let c : Case := ⟨d.client, d.smId, d.n0, d.ins.reverse⟩
+    let m := modelResume c
+    let showR : Option (String × Nat) → String
+      | none => "none"
+      | some (i, h) => encStr i ++ ":" ++ toString h
+    let i : Option (Option (String × Nat)) :=
+      if impl == "none" then some none else
+      match impl.splitOn ":" with
+      | [a, b] => (do pure (some (← decStr a, ← b.toNat?)))
+      | _ => none
+    match i with
+    | some i => (d, ⟨showR m, decide (m = i), holdsResume c m, holdsResume c i, "-"⟩)
+    | none => (d, ⟨showR m, false, holdsResume c m, false, "-"⟩)
   | _ =>
     match parseIn fields with
     | some i => ({ d with ins := i :: d.ins }, .det "-" impl true true)
